@@ -44,7 +44,7 @@ except ImportError:
 __all__ = ['IO']
 
 line_pattern = re.compile(br'(.*?)\r?\n')
-reply_line_pattern = re.compile(br'((\d\d\d)([ \t-])(.*?))\r?\n')
+reply_line_pattern = re.compile(br'(([1-5]\d\d)([ \t-])(.*?))\r?\n')
 command_pattern = re.compile(br'^([a-zA-Z]+)\s*$')
 command_arg_pattern = re.compile(br'^([a-zA-Z]+)\s+(.+?)\s*$')
 
